@@ -61,7 +61,7 @@ import (
 func init() {
 	core.Register(&core.Monitor{
 		ID:            "C30",
-		Rule:          "(S) every transaction of the corpus blocks Shelley..Conway (51) + the corpus Dijkstra transaction + ledgergen transactions per era (payment, metadata, multi-asset, Plutus world valid / is_valid=false), each under encoding policies {as-is, containers, ints, strings, indef-strings, all} x PRNG variants (quick 3, thorough 40) x (a,b) in {0,44,155381,2^32,2^63,2^64-1}^2 x fee in {min-1,min,min+1} (fee written as an 8-byte integer so the size does not depend on it; min >= 2^64: fee 2^64-1) + max-size limits {len-2,len-1,len,len+1}; (B) every corpus block as is and re-encoded under the same policies x variants, every transaction of the decoded block x a in {0,44,155381,2^32} with b chosen so that min = fee+{-1,0,1}, plus the (a,b) grid, plus max-size limits around the size; (F) ledgergen transactions through the full rule list at fee min-1/min/min+1; (C) CalculateMinFee on sizes {0,1,2,100,16384,2^31-1,2^32,2^62,2^63-1} + PRNG x the (a,b) grid; a case is non-trivial when the transaction / block decodes; distinct by (family, source, policy variant, a, b, fee offset | limit)",
+		Rule:          "(S) every transaction of the corpus blocks Shelley..Conway (51) + the corpus Dijkstra transaction + ledgergen transactions per era (payment, metadata, multi-asset, Plutus world valid / is_valid=false), each under encoding policies {as-is, containers, ints, strings, indef-strings, all} and the size-neutral presentations {keys-descending, all-maps-reversed, keys-shuffled} (map key order: identical size, identical verdicts) x PRNG variants (quick 3, thorough 40) x (a,b) in {0,44,155381,2^32,2^63,2^64-1}^2 x fee in {min-1,min,min+1} (fee written as an 8-byte integer so the size does not depend on it; min >= 2^64: fee 2^64-1) + max-size limits {len-2,len-1,len,len+1}; (B) every corpus block as is and re-encoded under the same policies x variants, every transaction of the decoded block x a in {0,44,155381,2^32} with b chosen so that min = fee+{-1,0,1}, plus the (a,b) grid, plus max-size limits around the size; (F) ledgergen transactions through the full rule list at fee min-1/min/min+1; (C) CalculateMinFee on sizes {0,1,2,100,16384,2^31-1,2^32,2^62,2^63-1} + PRNG x the (a,b) grid; a case is non-trivial when the transaction / block decodes; distinct by (family, source, policy variant, a, b, fee offset | limit)",
 		MinNontrivial: 20000,
 		Assumptions: []string{
 			"a transaction taken from a block has, as its original encoding, the 3-item re-assembly of its original body / witness-set / auxiliary-data bytes (1 + |body| + |wits| + |aux or null|), which is what the ledger sizes",
@@ -116,15 +116,60 @@ func params(e lg.Era, a, b uint64, maxTx uint) common.ProtocolParameters {
 type policy struct {
 	name string
 	o    blockx.RandOpts
+	// reorder: size-neutral presentations (the ledger prescribes no map key
+	// order): 1 = body and witness-set map entries in descending key order,
+	// 2 = entries of EVERY map of the transaction reversed, 3 = body and
+	// witness-set entries in a PRNG order
+	reorder int
+}
+
+// reorderMap permutes the entries of a map node in place.
+func reorderMap(m *cborx.Node, mode int, r *core.Rand) int {
+	if m == nil || m.Kind != cborx.Map || len(m.Items) < 4 {
+		return 0
+	}
+	n := len(m.Items) / 2
+	idx := make([]int, n)
+	for i := range idx {
+		idx[i] = n - 1 - i
+	}
+	if mode == 3 {
+		idx = r.Perm(n)
+	}
+	items := make([]*cborx.Node, 0, len(m.Items))
+	for _, i := range idx {
+		items = append(items, m.Items[2*i], m.Items[2*i+1])
+	}
+	m.Items = items
+	return 1
+}
+
+// reorderTx applies a reorder mode to one transaction (body, witness set and,
+// for mode 2, every nested map incl. the auxiliary data).
+func reorderTx(mode int, r *core.Rand, body, wits *cborx.Node, rest ...*cborx.Node) int {
+	ch := 0
+	if mode == 2 {
+		for _, root := range append([]*cborx.Node{body, wits}, rest...) {
+			if root == nil {
+				continue
+			}
+			root.Walk(func(x *cborx.Node) { ch += reorderMap(x, 2, r) })
+		}
+		return ch
+	}
+	return reorderMap(body, mode, r) + reorderMap(wits, mode, r)
 }
 
 var policies = []policy{
-	{"as-is", blockx.RandOpts{}},
-	{"containers", blockx.RandOpts{Containers: true, Num: 1, Den: 3}},
-	{"ints", blockx.RandOpts{Ints: true, Num: 1, Den: 3}},
-	{"strings", blockx.RandOpts{Strings: true, Num: 1, Den: 4}},
-	{"indef-strings", blockx.RandOpts{IndefStrings: true, Num: 1, Den: 6}},
-	{"all", blockx.RandOpts{Containers: true, Ints: true, Strings: true, IndefStrings: true, Tags: true, Num: 1, Den: 5}},
+	{name: "as-is", o: blockx.RandOpts{}},
+	{name: "containers", o: blockx.RandOpts{Containers: true, Num: 1, Den: 3}},
+	{name: "ints", o: blockx.RandOpts{Ints: true, Num: 1, Den: 3}},
+	{name: "strings", o: blockx.RandOpts{Strings: true, Num: 1, Den: 4}},
+	{name: "indef-strings", o: blockx.RandOpts{IndefStrings: true, Num: 1, Den: 6}},
+	{name: "all", o: blockx.RandOpts{Containers: true, Ints: true, Strings: true, IndefStrings: true, Tags: true, Num: 1, Den: 5}},
+	{name: "keys-descending", reorder: 1},
+	{name: "all-maps-reversed", reorder: 2},
+	{name: "keys-shuffled", reorder: 3},
 }
 
 // targeted policies of the block family: exactly one node of transaction 0
@@ -196,7 +241,7 @@ func setAux(l *blockx.Layout, k int, aux *cborx.Node) bool {
 }
 
 func encClass(p policy, changed int) string {
-	if strings.HasPrefix(p.name, "aux-") {
+	if strings.HasPrefix(p.name, "aux-") || p.reorder != 0 {
 		return p.name
 	}
 	if p.name == "as-is" || changed == 0 {
@@ -342,7 +387,14 @@ func judgeFee(c *core.Ctx, co *collector, s *subject, a, b uint64, how string) {
 	}
 
 	rule, _ := lg.Rule(s.era, "UtxoValidateFeeTooSmallUtxo")
-	rerr := rule(s.tx, 0, emptyState, pp)
+	// the history check (same objects validated again, state snapshots) is
+	// expensive: it runs on the boundary case fee == min of every encoding
+	var rerr error
+	if strings.HasPrefix(how, "fee=min+0") {
+		rerr = lg.Checked(s.era, s.tx, emptyState, func() error { return rule(s.tx, 0, emptyState, pp) })
+	} else {
+		rerr = rule(s.tx, 0, emptyState, pp)
+	}
 	if rerr != nil {
 		c.Count("fee_rule_reject_"+tag, 1)
 		if fee.Cmp(want) >= 0 {
@@ -377,7 +429,8 @@ func judgeMaxSize(c *core.Ctx, co *collector, s *subject, fullLen int) {
 		}
 		c.Eval()
 		c.Distinct("M", s.family, s.source, s.policy, s.detail["variant"], d)
-		err := rule(s.tx, 0, emptyState, params(s.era, 44, 155381, uint(limit)))
+		mpp := params(s.era, 44, 155381, uint(limit))
+		err := lg.Checked(s.era, s.tx, emptyState, func() error { return rule(s.tx, 0, emptyState, mpp) })
 		if err != nil {
 			c.Count("maxsize_reject_"+tag, 1)
 			if fullLen <= limit {
@@ -507,7 +560,7 @@ func runStandalone(c *core.Ctx, co *collector, bases []base) {
 	for bi := range bases {
 		for pi, p := range policies {
 			n := variants
-			if p.name == "as-is" {
+			if p.name == "as-is" || p.reorder == 1 || p.reorder == 2 {
 				n = 1
 			}
 			for vi := 0; vi < n; vi++ {
@@ -522,7 +575,12 @@ func runStandalone(c *core.Ctx, co *collector, bases []base) {
 		b, p := bases[j.bi], policies[j.pi]
 		env := b.node.Clone()
 		changed := 0
-		if p.name != "as-is" {
+		switch {
+		case p.reorder != 0:
+			if env.Kind == cborx.Array && len(env.Items) >= 3 {
+				changed = reorderTx(p.reorder, r, env.Items[0], env.Items[1], env.Items[len(env.Items)-1])
+			}
+		case p.name != "as-is":
 			changed = blockx.Randomize(env, r, p.o)
 		}
 		fn := feeNode(env)
@@ -615,7 +673,7 @@ func runBlocks(c *core.Ctx, co *collector) {
 		}
 		for pi, p := range policies {
 			n := variants
-			if p.name == "as-is" {
+			if p.name == "as-is" || p.reorder == 1 || p.reorder == 2 {
 				n = 1
 			}
 			for vi := 0; vi < n; vi++ {
@@ -684,6 +742,12 @@ func runBlocks(c *core.Ctx, co *collector) {
 		case j.pi < 0:
 			if l0, err := blockx.AnalyzeNode(j.b.Type, j.b.Cbor, root); err == nil {
 				changed = applyTargeted(p.name, l0)
+			}
+		case p.reorder != 0:
+			if l0, err := blockx.AnalyzeNode(j.b.Type, j.b.Cbor, root); err == nil {
+				for _, t := range l0.Txs {
+					changed += reorderTx(p.reorder, r, t.Body, t.Witness, t.Aux)
+				}
 			}
 		case p.name != "as-is":
 			changed = blockx.Randomize(root, r, p.o)
@@ -917,6 +981,7 @@ func bits(v uint64) int { return new(big.Int).SetUint64(v).BitLen() }
 // ---------------------------------------------------------------- run
 
 func run(c *core.Ctx) {
+	lg.EnableChecks(c).Revalidations = 1
 	co := &collector{m: map[string]*finding{}}
 	bases := append(corpusBases(c), ledgergenBases()...)
 	runStandalone(c, co, bases)
